@@ -196,7 +196,25 @@ def memory_check(h, schema, expected):
 
 
 # ------------------------------------------------------------------ the statement on the implementation's output
-def oracle(files, reads, final_dump, written, schema=None):
+K_NESTED = "append:nested-aggregate-reference-not-renumbered"
+
+
+def flat_shift(inst, k):
+    """shift_inst as the reader of the code at hand does it while `Generated.threading.aggrNested = false`: the elements of an
+    aggregate of aggregates are kept as text, the references inside keep their numbers (KNOWN_FINDINGS K_NESTED)"""
+    def sv(v, in_aggr):
+        t = v[0]
+        if t == "ref":
+            return ("ref", v[1] + k)
+        if t == "aggr":
+            return v if in_aggr else ("aggr", [sv(x, True) for x in v[1]])
+        if t == "typed":
+            return ("typed", v[1], sv(v[2], False))
+        return v
+    return G.Inst(inst.id + k, [(n, [sv(v, False) for v in vs]) for n, vs in inst.parts], inst.comment)
+
+
+def oracle(files, reads, final_dump, written, schema=None, shift=None):
     """files: [(scheme, pop)], reads: the `R ...` dicts of read/append, final_dump: [(id, type, state)], written: [Inst]"""
     total = sum(len(p) for _, p in files)
     if len(final_dump) != total or len(written) != total:
@@ -219,7 +237,7 @@ def oracle(files, reads, final_dump, written, schema=None):
             if earlier_ids and k <= max(earlier_ids):
                 return f"appended file {fi}: offset {k} is not larger than every earlier id (max {max(earlier_ids)})"
             for a, b in zip(pop, seg):
-                want = G.shift_inst(a, k)
+                want = (shift or G.shift_inst)(a, k)
                 if schema is not None:
                     b = unhide_redeclared(schema, b, want)
                 if not G.inst_equal(want, b):
@@ -234,8 +252,10 @@ def oracle(files, reads, final_dump, written, schema=None):
     return None
 
 
-def run_case(ctx, h, m, schema, files, strict, workdir, tag, layout_seed=None):
-    """returns (kind, detail) or None; kind in property/correspondence"""
+def run_case(ctx, h, m, schema, files, strict, workdir, tag, layout_seed=None, known=None):
+    """returns (kind, detail) or None; kind in property/correspondence.  known: list that receives the oracle's complaint when it
+    is exactly the recorded class K_NESTED (everything as demanded except that references inside aggregates of aggregates
+    kept their numbers); the history is then judged against that behaviour and the correspondence is still demanded"""
     reads_h, reads_m = [], []
     h.cmd(f"reset {strict}")
     m.cmd(f"reset {strict}")
@@ -259,17 +279,31 @@ def run_case(ctx, h, m, schema, files, strict, workdir, tag, layout_seed=None):
     final = parse_dump(dumps[-1][0])
     # --- oracle on the implementation
     e = oracle(files, reads_h, final, written, schema)
+    shift = G.shift_inst
     if e:
-        return ("property", e)
+        if known is None or oracle(files, reads_h, final, written, schema, shift=flat_shift):
+            return ("property", e)
+        known.append(e)
+        shift = flat_shift
     # the same for the population as the session holds it (what an application sees; the only place where a
     # redeclared attribute's value shows)
     expected, seen = [], []
     for fi, (_, pop) in enumerate(files):
         k = 0 if fi == 0 else written[len(expected)].id - pop[0].id
-        expected += [G.shift_inst(i, k) for i in pop]
+        expected += [shift(i, k) for i in pop]
     e = memory_check(h, schema, expected)
     if e:
-        return ("property", e)
+        if known is not None and shift is G.shift_inst:
+            exp2, n2 = [], 0
+            for fi, (_, pop) in enumerate(files):
+                k = 0 if fi == 0 else written[n2].id - pop[0].id
+                exp2 += [flat_shift(i, k) for i in pop]
+                n2 += len(pop)
+            if memory_check(h, schema, exp2) is None:
+                known.append(e)
+                e = None
+        if e:
+            return ("property", e)
     for r in reads_h:
         if r["sev"] not in ("NULL", "USERMSG"):
             return ("property", f"conforming file not read cleanly: severity {r['sev']} ({r})")
@@ -364,6 +398,7 @@ def run(ctx):
     with cf.ThreadPoolExecutor(max_workers=8) as ex:
         built = list(ex.map(lambda s: build_schema(b, s, os.path.join(ctx.work, s.name), False), schemas))
     ctx.cov["correspondence"]["build_s"] = round(time.time() - t0, 1)
+    nested_seen = []
     for s, (exe, _) in zip(schemas, built):
         wd = os.path.join(ctx.work, s.name)
         h, m = Harness(exe, b.env()), Model(model_exe, s)
@@ -374,7 +409,12 @@ def run(ctx):
                 files = boundary_files(ctx.rng, s) if ci % 20 == 7 else gen_files(ctx.rng, s, quick)
                 strict = ci % 2
                 layout = ctx.rng.randrange(1 << 30) if ci % 3 == 2 else None
-                r = run_case(ctx, h, m, s, files, strict, wd, f"c{ci}", layout)
+                kn = []
+                r = run_case(ctx, h, m, s, files, strict, wd, f"c{ci}", layout, known=kn)
+                if kn and not nested_seen:
+                    nested_seen.append((kn[0], s, files, strict, layout, exe))
+                ctx.hist("references inside aggregates of aggregates (appended files)",
+                         "some" if any(G.inst_refs(flat_shift(i, 1)) != G.inst_refs(G.shift_inst(i, 1)) for _, p in files[1:] for i in p) else "none")
                 ctx.hist("layout", "white space everywhere" if layout is not None else "compact")
                 ctx.count(1, key=(s.name, ci))
                 ctx.hist("files per history", str(len(files)))
@@ -422,6 +462,29 @@ def run(ctx):
             h.close(); m.close()
             break
         h.close(); m.close()
+    if nested_seen:
+        # the recorded class, once per run, with a minimal history
+        what, s, files, strict, layout, exe = nested_seen[0]
+        wd = os.path.join(ctx.work, s.name)
+        h, m = Harness(exe, b.env()), Model(model_exe, s)
+        try:
+            def shows(fs):
+                kn = []
+                run_case(ctx, h, m, s, fs, strict, wd, "shn", layout, known=kn)
+                return bool(kn)
+            mini = shrink(files, shows)
+            kn = []
+            run_case(ctx, h, m, s, mini, strict, wd, "shn", layout, known=kn)
+            if kn:
+                what = kn[0]
+            else:
+                mini = files
+        finally:
+            h.close(); m.close()
+        ctx.violation(K_NESTED, what,
+                      {"schema_express": s.express(), "schema_name": s.name, "strict": strict,
+                       "files": [G.render(s.name, p, None if layout is None else random.Random(layout * 31 + fi)) for fi, (_, p) in enumerate(mini)],
+                       "how": "exp2cxx the schema, link harness/h_p21.cc; `reset <strict>`, `read files[0]`, `append files[1..]`, `dump`, `write OUT 0`"})
     ctx.sample({"schema": schemas[0].express()[:1000]})
     ex_files = gen_files(ctx.rng, schemas[0], True)
     ctx.sample({"history": [G.render(schemas[0].name, p)[-400:] for _, p in ex_files]})
